@@ -41,6 +41,7 @@ type ReSpec struct {
 	RuneBuf   int    `json:"rune_buf,omitempty"`    // MaxCachedRuneBufferLength: 0 = default, -9 = 0
 	ReplBuf   int    `json:"repl_buf,omitempty"`    // MaxCachedReplaceBufferLength: 0 = default, -9 = 0
 	NoBitmap  bool   `json:"no_bitmap,omitempty"`
+	KeepOrder bool   `json:"maintain_capture_order,omitempty"`
 	TimeoutNs int64  `json:"timeout_ns,omitempty"` // MatchTimeout set before the Regexp is shared (0: none)
 	Private   int    `json:"private,omitempty"`    // 1+client index if only that client uses it
 }
